@@ -33,6 +33,7 @@ type c16Case struct {
 	Slow    bool    `json:"slow"`         // the server's verdict is slow: while Close waits for it, the deadline armed on the client's connection must be the submission timeout, not the (much shorter) command timeout
 	Reclose bool    `json:"reclose"`      // (with Second) the first message's writer is closed once more while the second message's writer is open
 	ViaSM   bool    `json:"via_sendmail"` // SMTP only: the first message goes through Client.SendMail (Mail, Rcpt..., Data, io.Copy from a reader that yields the partition, Close)
+	SrcFail int     `json:"src_fail"`     // Client.SendMail from a reader that fails (not io.EOF) after At octets: 1 = on a Read of its own, 2 = together with the last octets it yields
 	CT      bool    `json:"ct"`           // "time passes" on the client side while the body is being written: any deadline the client left armed on its connection is fired
 }
 
@@ -86,6 +87,17 @@ func c16Run(ctx *core.Ctx) {
 				emit(c)
 			}
 		}
+		// the source of Client.SendMail fails in the middle: the part that was read must not be
+		// handed to the backend as a complete message
+		for bi, body := range []string{"one line\r\n", "Subject: x\r\n\r\nfirst line\r\nsecond line\r\n", "no line end", ".\r\n.dot\r\nx", strings.Repeat("0123456789abcdef", 300) + "\r\nlast\r\n"} {
+			for _, at := range []int{0, 1, len(body) / 2, len(body) - 1, len(body)} {
+				for sf := 1; sf <= 2; sf++ {
+					for nr := 1; nr <= 2; nr++ {
+						emit(c16Case{Body: []byte(body), BodyQ: fmt.Sprintf("%q", body), Part: "srcfail", At: at, Mode: modeSMTP, NRcpt: nr, SrcFail: sf, Reject: (bi+at+sf)%3 == 0})
+					}
+				}
+			}
+		}
 		core.Strings([]string{".", "\n", "\r\n", "x"}, maxTok, func(parts []string) { gen([]byte(strings.Join(parts, ""))) })
 		for i := 0; i < nRand; i++ {
 			r := core.NewRand(ctx.Seed, 162, uint64(i))
@@ -113,6 +125,10 @@ func c16Run(ctx *core.Ctx) {
 }
 
 func c16Exec(ctx *core.Ctx, c c16Case) {
+	if c.SrcFail > 0 {
+		c16SrcFailExec(ctx, c)
+		return
+	}
 	nontrivial := false
 	for i, b := range c.Body {
 		if b == '.' && (i == 0 || c.Body[i-1] == '\n') {
@@ -500,4 +516,74 @@ func (r *c16SegReader) Read(p []byte) (int, error) {
 		return n, io.EOF
 	}
 	return n, nil
+}
+
+var errC16Source = errors.New("harness: the message source failed")
+
+// c16FailingReader yields body[:at] in pieces of at most 700 octets and then fails with a non-EOF
+// error: on a Read of its own (kind 1) or together with the last piece (kind 2).
+type c16FailingReader struct {
+	rest []byte
+	kind int
+}
+
+func (r *c16FailingReader) Read(p []byte) (int, error) {
+	if len(r.rest) == 0 {
+		return 0, errC16Source
+	}
+	n := len(r.rest)
+	if n > 700 {
+		n = 700
+	}
+	n = copy(p, r.rest[:n])
+	r.rest = r.rest[n:]
+	if len(r.rest) == 0 && r.kind == 2 {
+		return n, errC16Source
+	}
+	return n, nil
+}
+
+// c16SrcFailExec: Client.SendMail is given a reader that fails after At octets. SendMail has to
+// report the failure, and whatever the application does next (here: it closes the client), the
+// backend must not have been handed the part that was read as a complete message - its reader
+// must not end in EOF (the end-to-end face of C07: the client abandons the transfer).
+func c16SrcFailExec(ctx *core.Ctx, c c16Case) {
+	ctx.Eval(fmt.Sprintf("srcfail|%q|%d|%d|%d|%v", c.Body, c.At, c.SrcFail, c.NRcpt, c.Reject), true)
+	rig := newRig(c.Mode, nil)
+	rig.BE.H.Data = func(sess int, r *rec.Reader, st smtp.StatusCollector) error {
+		r.ReadAll(97)
+		if c.Reject {
+			return &smtp.SMTPError{Code: 554, EnhancedCode: smtp.EnhancedCode{5, 6, 0}, Message: "v#m16 rejected"}
+		}
+		return nil
+	}
+	p := rig.Dial()
+	cl := smtp.NewClient(p.Raw)
+	var rcpts []string
+	for i := 0; i < c.NRcpt; i++ {
+		rcpts = append(rcpts, fmt.Sprintf("rcpt16-%d@x.test", i))
+	}
+	err := cl.SendMail("sender16@x.test", rcpts, &c16FailingReader{rest: append([]byte{}, c.Body[:c.At]...), kind: c.SrcFail})
+	cl.Close()
+	p.Close()
+	rig.Finish()
+	waitDataEnds(rig.Log)
+	fail := func(sig, msg string) {
+		ctx.Violate(sig, msg+fmt.Sprintf(" [body=%q fails-after=%d kind=%d nrcpt=%d]", c.Body, c.At, c.SrcFail, c.NRcpt), c, rig.Log.Strings(80))
+	}
+	ctx.Add("backend_events", countBackendEvents(rig.Log.Events()))
+	if err == nil {
+		fail("C16:source-error-not-reported", "SendMail returned nil although its source failed")
+		return
+	}
+	for _, d := range dataEnds(rig.Log.Events()) {
+		ctx.Add("octets_compared", int64(len(d.A)))
+		if d.B == "EOF" {
+			fail("C16:truncated-message-delivered", fmt.Sprintf("the source of SendMail failed after %d of %d octets (SendMail returned %v), yet the backend read %q up to a clean end of file: a truncated message was presented as complete", c.At, len(c.Body), err, clipStr(d.A, 120)))
+			return
+		}
+	}
+	if ctx.WantSample("srcfail") {
+		ctx.Sample("srcfail", map[string]any{"body": clipStr(string(c.Body), 60), "fails_after": c.At, "sendmail_error": fmt.Sprint(err), "data_calls": len(dataEnds(rig.Log.Events()))})
+	}
 }
